@@ -98,6 +98,8 @@ class HFlags(Plugin):
                 return [(pl, [])]
             conv = s.opaque_convention.get(callee.name)
             if conv is None:
+                if call[5] is not None and not s.may_report(callee):
+                    eng.indirect_results.add(call[5])     # result of a helper that can never report: a status, not a violation code
                 return [(pl, [])]
             # assume-guarantee for an exported callee that is too large to inline: it either succeeds quietly
             # or fails having reported exactly once with the code it returns (checked when it is analysed itself)
@@ -125,7 +127,8 @@ class DFlags(Plugin):
     """destination typestate: has this call written into dest, was dest cleared at its start / completely since, is a NUL known in dest"""
     inline_depth = 3
 
-    def __init__(s, dest="dest", dmax="dmax", noinline=(), assume_quiet=None):
+    def __init__(s, dest="dest", dmax="dmax", noinline=(), assume_quiet=None, opaque_convention=None):
+        s.opaque_convention = opaque_convention or {}
         s.dest_name = dest
         s.dmax_name = dmax
         s.noinline = set(noinline) | set(PRIM_EFFECTS)
@@ -147,6 +150,10 @@ class DFlags(Plugin):
             s.pinned.add(m["id"])
         if bos:
             s.pinned.add(bos["id"])
+        for zn in ("slen", "n", "count", "len"):
+            zp = fn.pnames.get(zn)
+            if zp is not None and zp["ty"] == "i64":
+                s.pinned.add(zp["id"])
         # (dirty, clr_first, clr_full, nul, last stored value, last loaded value, length of the string currently in dest if measured)
         return (False, False, False, False, None, None, None)
 
@@ -270,8 +277,16 @@ class DFlags(Plugin):
                 return [(pl, [])]
             # opaque library callee receiving dest: assume it honours its own contract (string in dest or cleared on error)
             if any(s.is_dest(a) for a in args):
-                w = s.write(pl, [a for a in args if s.is_dest(a)][0], None, False, eng, facts)
-                return [(w[:3] + (True,) + w[4:], [])]
+                a0 = [a for a in args if s.is_dest(a)][0]
+                w = s.write(pl, a0, None, False, eng, facts)
+                ok = w[:3] + (True,) + w[4:]
+                conv = s.opaque_convention.get(callee.name)
+                if conv is None or not (a0[2].is_const() and a0[2].c == 0):
+                    return [(ok, [])]
+                # assume-guarantee: on success the callee left a string in dest; on failure it reset dest itself (its own C04/C03)
+                failed = (False, True, True, True) + pl[4:]
+                return [(ok, [(lambda r, conv=conv: conv_success_term(conv, r), True)]),
+                        (failed, [(lambda r, conv=conv: conv_success_term(conv, r), False)])]
             return [(pl, [])]
         if call[0] == "ext":
             name, eff, args = call[1], call[2], call[3]
